@@ -205,6 +205,11 @@ func pairExpr(outer, inner string, right bool, r *rand.Rand) (gen.Expr, bool) {
 
 func c01Run(c *core.Ctx, i int) {
 	r := c.Rng
+	if i%40 == 39 { // deep equality of any values with different dynamic types
+		c.Cover("family", "any-equality")
+		runGenProgram(c, anyEqProgram(r), nil, true, false)
+		return
+	}
 	b := c01Prelude(r)
 	npairs := 2 * len(binOps) * len(binOps)
 	nontrivial := false
